@@ -1,0 +1,180 @@
+//go:build verif
+
+package scanner
+
+import (
+	"fmt"
+	"reflect"
+	"runtime"
+	"sort"
+	"strings"
+	"sync"
+	"sync/atomic"
+)
+
+// VerifBudgetExceeded is the panic value used when the scanner's step budget is exceeded.
+type VerifBudgetExceeded struct {
+	Steps int
+	Limit int
+}
+
+func (v VerifBudgetExceeded) Error() string {
+	return fmt.Sprintf("verif: scanner step budget exceeded: %d > %d", v.Steps, v.Limit)
+}
+
+type verifState struct {
+	steps int
+}
+
+const verifMaxStates = 512
+
+// byte classes: grammar-relevant bytes get their own class, everything else is grouped.
+const verifClasses = 32
+
+var (
+	verifStateIDs   sync.Map // uintptr -> int
+	verifStateNames [verifMaxStates]atomic.Value
+	verifNextState  int32
+	verifCoverage   [verifMaxStates][verifClasses]uint32
+	verifTotalSteps uint64
+)
+
+func verifClass(c byte) int {
+	switch c {
+	case 0:
+		return 0
+	case ' ':
+		return 1
+	case '\t':
+		return 2
+	case '\r':
+		return 3
+	case '\n':
+		return 4
+	case '#':
+		return 5
+	case '(':
+		return 6
+	case ')':
+		return 7
+	case '/':
+		return 8
+	case '*':
+		return 9
+	case '"':
+		return 10
+	case '\\':
+		return 11
+	case '{':
+		return 12
+	case '}':
+		return 13
+	case '[':
+		return 14
+	case ']':
+		return 15
+	case '@':
+		return 16
+	case ':':
+		return 17
+	case ',':
+		return 18
+	case '-':
+		return 19
+	case '.':
+		return 20
+	}
+	switch {
+	case c >= '0' && c <= '9':
+		return 21
+	case c >= 'A' && c <= 'Z':
+		return 22
+	case c >= 'a' && c <= 'z':
+		return 23
+	case c >= 0x80:
+		return 24
+	case c < 0x20:
+		return 25
+	}
+	return 26
+}
+
+func verifStateID(f stepFunc) int {
+	pc := reflect.ValueOf(f).Pointer()
+	if v, ok := verifStateIDs.Load(pc); ok {
+		return v.(int)
+	}
+	id := int(atomic.AddInt32(&verifNextState, 1)) - 1
+	if id >= verifMaxStates {
+		id = verifMaxStates - 1
+	}
+	if v, loaded := verifStateIDs.LoadOrStore(pc, id); loaded {
+		return v.(int)
+	}
+	name := runtime.FuncForPC(pc).Name()
+	if i := strings.LastIndex(name, "."); i >= 0 {
+		name = name[i+1:]
+	}
+	verifStateNames[id].Store(name)
+	return id
+}
+
+// verifStep is called once per evaluated byte, before the step function runs.
+func (s *Scanner) verifStep(c byte) {
+	s.verif.steps++
+	if limit := 4*len(s.data) + 64; s.verif.steps > limit {
+		panic(VerifBudgetExceeded{Steps: s.verif.steps, Limit: limit})
+	}
+	id := verifStateID(s.step)
+	atomic.AddUint64(&verifTotalSteps, 1)
+	p := &verifCoverage[id][verifClass(c)]
+	if atomic.LoadUint32(p) == 0 {
+		atomic.StoreUint32(p, 1)
+	}
+}
+
+// VerifSteps returns the number of bytes this scanner has evaluated so far.
+func (s *Scanner) VerifSteps() int {
+	return s.verif.steps
+}
+
+// VerifCoveragePairs returns the (state, byte class) pairs evaluated so far in this process.
+func VerifCoveragePairs() []string {
+	var res []string
+	n := int(atomic.LoadInt32(&verifNextState))
+	if n > verifMaxStates {
+		n = verifMaxStates
+	}
+	for i := 0; i < n; i++ {
+		name, _ := verifStateNames[i].Load().(string)
+		for j := 0; j < verifClasses; j++ {
+			if atomic.LoadUint32(&verifCoverage[i][j]) != 0 {
+				res = append(res, fmt.Sprintf("%s/%d", name, j))
+			}
+		}
+	}
+	sort.Strings(res)
+	return res
+}
+
+// VerifCoverageCount returns the number of distinct (state, byte class) pairs evaluated so far.
+func VerifCoverageCount() int {
+	cnt := 0
+	n := int(atomic.LoadInt32(&verifNextState))
+	if n > verifMaxStates {
+		n = verifMaxStates
+	}
+	for i := 0; i < n; i++ {
+		for j := 0; j < verifClasses; j++ {
+			if atomic.LoadUint32(&verifCoverage[i][j]) != 0 {
+				cnt++
+			}
+		}
+	}
+	return cnt
+}
+
+// VerifTotalSteps returns the total number of scanner steps in this process.
+func VerifTotalSteps() uint64 {
+	return atomic.LoadUint64(&verifTotalSteps)
+}
